@@ -7,6 +7,7 @@ import (
 	"context"
 	"fmt"
 	"math"
+	"math/big"
 	"os"
 	"sort"
 	"strconv"
@@ -275,8 +276,21 @@ func (e *Env) showKV(m map[string][]byte, typed bool) string {
 	p := make([]string, len(keys))
 	for i, k := range keys {
 		v := e.canon(m[k])
-		if typed && e.Policy == "setsum" && len(v) >= 4 && (string(v[:4]) == "sum:" || string(v[:4]) == "set:") {
-			v = v[4:]
+		if typed {
+			if e.Policy == "setsum" && len(v) >= 4 && (string(v[:4]) == "sum:" || string(v[:4]) == "set:") {
+				v = v[4:]
+			}
+			// typed value: numbers re-rendered canonically ("007" = "7", "1.50" = "1.5")
+			switch e.VT {
+			case "int64", "bigint":
+				if i, ok := new(big.Int).SetString(string(v), 10); ok {
+					v = []byte(i.String())
+				}
+			case "bigdecimal":
+				if d, err := decimal.NewFromString(string(v)); err == nil && !strings.ContainsAny(string(v), "eE") {
+					v = []byte(d.String())
+				}
+			}
 		}
 		p[i] = common.Hex([]byte(k)) + "=" + common.Hex(v)
 	}
